@@ -123,15 +123,15 @@ def inspect_phc(
     }
 
     definition_info = _parse_phc_def(chosen_definition)
-    return chosen_definition(
-        id=id_,
-        salt=salt,
-        hash=hash,
-        **{
+    try:
+        parsed_params = {
             name: param.type(params[param.param.name])
             for name, param in definition_info.parameters.items()
-        },
-    )
+        }
+    except (KeyError, ValueError):
+        # missing or malformed parameter -- not a hash of this definition
+        return None
+    return chosen_definition(id=id_, salt=salt, hash=hash, **parsed_params)
 
 
 def phc_b64_encode(string: str) -> str:
